@@ -22,6 +22,7 @@ import (
 	"sort"
 	"strings"
 	"testing"
+	"time"
 
 	"github.com/rpcpool/yellowstone-faithful/zzverif/vkit"
 )
@@ -893,6 +894,39 @@ func TestVerif_C04(t *testing.T) {
 				}
 			}
 		}
+	}
+	// ---- bucket selection terminates: BucketHash re-hashes values below a threshold until they leave it; a key whose
+	// 64-bit hash is a fixed point of that re-hash would never be placed (Insert and Lookup would spin) ----
+	if next() {
+		zeroHashKey, _ := hex.DecodeString("7385807d8f0b5339") // xxhash64 of these 8 bytes is 0 (a valid 8-byte slot key)
+		keys := [][]byte{zeroHashKey, {}, {0}, []byte("a"), make([]byte, 32), make([]byte, 64)}
+		hung := false
+		for n := uint32(1); n <= 130 && !hung; n++ {
+			for ki, k := range keys {
+				h := Header{NumBuckets: n}
+				done := make(chan uint, 1)
+				go func() { done <- h.BucketHash(k) }()
+				var got uint
+				returned := false
+				for attempt := 0; attempt < 2 && !returned; attempt++ {
+					select {
+					case got = <-done:
+						returned = true
+					case <-time.After(20 * time.Second):
+					}
+				}
+				R.Case(ki == 0 && n&(n-1) != 0, "")
+				if !returned {
+					c04Viol(R, "bucket-hash-never-returns", "", fmt.Sprintf("Header{NumBuckets: %d}.BucketHash(%x) has not returned after 40 s: Insert and Lookup of this key never finish", n, k), c04Case{Part: "bucket-hash", Format: c04Format})
+					hung = true // the goroutine keeps spinning; one report is enough
+					break
+				}
+				if got >= uint(n) {
+					c04Viol(R, "bucket-hash-out-of-range", "", fmt.Sprintf("Header{NumBuckets: %d}.BucketHash(%x) = %d", n, k, got), c04Case{Part: "bucket-hash", Format: c04Format})
+				}
+			}
+		}
+		R.Bounds[c04Format+":bucket_hash_bucket_counts"] = "1..130 x 6 keys incl. one whose xxhash64 is 0"
 	}
 	R.Bounds[c04Format+":universe_keys"] = uniSize
 	R.Bounds[c04Format+":max_subset_size"] = maxSub
